@@ -506,28 +506,36 @@ def check(ctx):
         kc = model.mod(rel).classes.get('KnownMultiplierStringType')
         if kc is None:
             raise AnalysisError('%s: KnownMultiplierStringType vanished' % rel)
-        for mn in ('decode', 'decode_unbound'):
-            r_ = kc.find_method(mn)
-            if not r_:
-                continue
-            g_ = r_[1]
-            if g_._cls is not kc and rel == UPER:
-                continue          # inherited from the aligned class: examined there
+        for mn, g_ in sorted(kc.methods.items()):          # every method of the class itself (what it inherits from the aligned class is examined there)
             gv = sem.View(g_)
             for x_ in walk_no_nested(g_):
-                if isinstance(x_, ast.Call) and isinstance(x_.func, ast.Name) and x_.func.id == 'to_byte_array' and len(x_.args) == 2:
+                if not (isinstance(x_, ast.Call) and isinstance(x_.func, ast.Name) and x_.func.id == 'to_byte_array' and len(x_.args) == 2):
+                    continue
+                widths = [(g_, gv.expr(x_.args[1]))]
+                if isinstance(widths[0][1], ast.Name) and widths[0][1].id in flow.param_names(g_):
+                    # the width is handed in: what the callers of the step (in the aligned and the unaligned class) pass for it
+                    idx_ = [p_ for p_ in flow.param_names(g_) if p_ != 'self'].index(widths[0][1].id)
+                    widths = []
+                    for rel2 in (PER, UPER):
+                        k2 = model.mod(rel2).classes.get('KnownMultiplierStringType')
+                        for h_ in (k2.methods.values() if k2 else []):
+                            hv = sem.View(h_)
+                            for c_ in walk_no_nested(h_):
+                                if isinstance(c_, ast.Call) and isinstance(c_.func, ast.Attribute) and c_.func.attr == g_.name and isinstance(c_.func.value, ast.Name) \
+                                        and c_.func.value.id == 'self' and idx_ < len(c_.args):
+                                    widths.append((h_, hv.expr(c_.args[idx_])))
+                for h_, w_ in widths:
                     n14 += 1
-                    w_ = gv.expr(x_.args[1])
                     wt = ast.unparse(w_)
                     field = 'bits_per_character' in wt and 'ALPHABET' not in wt
-                    ctx.instance('C01.R14', '%s to_byte_array(.., %s)' % (Model.qual(g_), wt[:60]), 'VIOLATION' if field else ('width of the alphabet' if 'ALPHABET' in wt else 'undecided'),
-                                 nontrivial='ALPHABET' in wt or field, node=x_, file=rel)
+                    ctx.instance('C01.R14', '%s to_byte_array(.., %s)' % (Model.qual(h_), wt[:60]), 'VIOLATION' if field else ('width of the alphabet' if 'ALPHABET' in wt else 'undecided'),
+                                 nontrivial='ALPHABET' in wt or field, node=x_, file=h_._mod.rel)
                     if field:
-                        ctx.violation('C01.R14', rel, x_, Model.qual(g_),
+                        ctx.violation('C01.R14', h_._mod.rel, x_, Model.qual(h_),
                                       'the octets of a decoded character are rebuilt with `%s`, the number of bits of the (possibly constrained) field: a BMPString (FROM ("a".."z")) has 8 bit '
                                       'fields but two octets per character, so the decoded octets are not UTF-16 and the value the encoder accepted cannot be decoded (UnicodeDecodeError)'
                                       % wt[:60], stmt='character width from the field')
-    if n14 < 3:
+    if n14 < 1:
         raise AnalysisError('C01.R14 found only %d character conversions' % n14)
 
 
